@@ -121,15 +121,15 @@ OpenDoneUpd(s, c, ok, t, a, i) ==
 
 \* ---------------------------------------------------------------- quiescent point
 NoDup(seq) == \A x, y \in DOMAIN seq : x # y => seq[x] # seq[y]
-Range(seq) == {seq[x] : x \in DOMAIN seq}
+RangeOf(seq) == {seq[x] : x \in DOMAIN seq}
 
 QuietCheck(s, t, a, i, proj, act, idl) ==
   IF ClockCheck(s, t) # "ok" THEN ClockCheck(s, t)
   ELSE IF FloorCheck(s, a) # "ok" THEN FloorCheck(s, a)
   ELSE IF a + i # Cardinality(s.S) THEN "C06.partition"
   ELSE IF proj = 1 /\ ~( /\ NoDup(act) /\ NoDup(idl)
-                         /\ Range(act) \cap Range(idl) = {}
-                         /\ Range(act) \cup Range(idl) = s.S ) THEN "C06.partition"
+                         /\ RangeOf(act) \cap RangeOf(idl) = {}
+                         /\ RangeOf(act) \cup RangeOf(idl) = s.S ) THEN "C06.partition"
   ELSE "ok"
 QuietUpd(s, t, a, i, proj, act, idl) == [Gauges(s, t, a, i) EXCEPT !.settling = {}]
 
